@@ -472,6 +472,57 @@ func c14BucketSafe(n int) string {
 }
 
 // c19Recover runs Recover on the image and evaluates the oracles; vers == nil means part A (exact).
+// c19AfterCrashInRecover: what a user does after Recover died: Open; if Open refuses, Recover again.  Either way the
+// settled contents must be there (part A: nothing is damaged).
+func c19AfterCrashInRecover(d *c19DB, ci *stor.Stor, openFirst bool) (sig, msg string) {
+	same := func(db *leveldb.DB) string {
+		got, err := crDumpDB(db)
+		if err != nil {
+			return "scan: " + err.Error()
+		}
+		for k, v := range d.m {
+			if g, ok := got[k]; !ok || g != v {
+				return fmt.Sprintf("key %x = %.20q (present=%v), the settled DB had %.20q; %d of %d keys returned", k, g, ok, v, len(got), len(d.m))
+			}
+		}
+		for k := range got {
+			if _, ok := d.m[k]; !ok {
+				return fmt.Sprintf("key %x returned, the settled DB did not have it", k)
+			}
+		}
+		return ""
+	}
+	var db *leveldb.DB
+	var err error
+	var hung bool
+	if openFirst {
+		// the old manifest was missing or unreachable, so an Open that succeeds runs on the manifest Recover wrote:
+		// it must then be complete (an Open on a stale but readable manifest would be the user's mistake, not Recover's)
+		err, hung = crCall(crWdTimeout, func() (err error) { db, err = leveldb.Open(ci.Clone(), d.o); return })
+		if hung {
+			return "open-hang", "Open of the image did not return"
+		}
+		if err == nil {
+			diff := same(db)
+			crCall(crWdTimeout, db.Close)
+			if diff != "" {
+				return "open-succeeds-with-data-lost", "Open succeeded but " + diff
+			}
+		}
+	}
+	// what the user does after Recover died: Recover again
+	err, hung = crCall(crWdTimeout, func() (err error) { db, err = leveldb.Recover(ci, d.o); return })
+	if hung || err != nil {
+		return "second-recover-fails", fmt.Sprintf("a second Recover on the image failed: err=%v hung=%v", err, hung)
+	}
+	diff := same(db)
+	crCall(crWdTimeout, db.Close)
+	if diff != "" {
+		return "second-recover-loses-data", "a second Recover on the image returned: " + diff
+	}
+	return "", ""
+}
+
 // inRecoverTable: the calling goroutine is inside leveldb's recoverTable.
 func inRecoverTable() bool {
 	buf := make([]byte, 16<<10)
@@ -522,7 +573,36 @@ func c19Recover(c *Ctx, once *crSigOnce, d *c19DB, img *stor.Stor, cs *c19Case, 
 			return stor.NoFault
 		}, nil)
 	}
+	// an eighth of the undamaged cases: the process dies inside Recover.  Crash images are taken before mutating
+	// storage operations made from inside Recover's own rebuild; each must afterwards either open with everything
+	// or refuse to open and be recoverable with everything (checked below, once Recover itself is through).
+	var crashImgs []*stor.Stor
+	if vers == nil && readFault == 0 && r.Chance(1, 8) {
+		every := 1 + r.Intn(3)
+		var nmut int
+		img.SetHooks(nil, func(s *stor.Stor, op stor.Op) {
+			if !op.Kind.Mutating() || !inRecoverTable() {
+				return
+			}
+			nmut++
+			if nmut%every == 0 && len(crashImgs) < 12 {
+				// the process dies, not the machine: what has been written stays (the settled DB was closed
+				// without syncing its last journal)
+				crashImgs = append(crashImgs, s.ImageLocked(nil))
+			}
+		})
+	}
 	err, hung := crCall(crWdTimeout, func() (err error) { db, err = leveldb.Recover(img, d.o); return })
+	if crashImgs != nil {
+		img.SetHooks(nil, nil)
+		c.Res.CountN("crash_in_recover", "images", len(crashImgs))
+		for i, ci := range crashImgs {
+			if sig, msg := c19AfterCrashInRecover(d, ci, cs.Manifest == "deleted" || cs.Manifest == "current-cleared"); sig != "" {
+				once.report(c, "recover:crash-inside-Recover:"+sig, fmt.Sprintf("image %d of %d taken inside Recover: %s", i, len(crashImgs), msg), cs)
+				break
+			}
+		}
+	}
 	if readFault > 0 {
 		img.SetHooks(nil, nil)
 		c.Res.Count("read_fault", fmt.Sprintf("fired=%v recover-error=%v", atomic.LoadInt32(&fired) == 1, err != nil))
